@@ -43,6 +43,13 @@ type fakeCtl struct {
 	workQ   []chan workResult
 	workReq []string
 	onLogin func() // runs right before the LoginResp is written
+	counts  map[string]int
+
+	// churn mode: per name one byte per message (N = NewProxy with the original metadatas, n = NewProxy with
+	// other metadatas, C = CloseProxy); every NewProxy is answered with success at once
+	compact     map[string][]byte
+	compactMeta string
+	compactN    int64
 }
 
 type workResult struct {
@@ -101,6 +108,13 @@ func (f *fakeCtl) snapshot() []streamEv {
 func (f *fakeCtl) reply(name string, errText string) {
 	f.mu.Lock()
 	s := f.sess
+	if f.compact != nil {
+		f.mu.Unlock()
+		if s != nil {
+			_ = s.Send(&msg.NewProxyResp{ProxyName: name, RemoteAddr: ":7000"})
+		}
+		return
+	}
 	if errText != "" {
 		f.errSent[name] = append(f.errSent[name], h.Now())
 	} else {
@@ -124,12 +138,22 @@ func (f *fakeCtl) session(s *h.FakeSession) {
 		switch v := m.(type) {
 		case *msg.NewProxy:
 			f.mu.Lock()
-			n := 1
-			for _, e := range f.stream {
-				if e.Kind == "new" && e.Name == v.ProxyName {
-					n++
+			if f.compact != nil { // churn: one byte per message, prompt success
+				b := byte('N')
+				if v.Metas["m"] != f.compactMeta {
+					b = 'n'
 				}
+				f.compact[v.ProxyName] = append(f.compact[v.ProxyName], b)
+				f.compactN++
+				f.mu.Unlock()
+				f.reply(v.ProxyName, "")
+				continue
 			}
+			if f.counts == nil {
+				f.counts = map[string]int{}
+			}
+			f.counts[v.ProxyName]++
+			n := f.counts[v.ProxyName]
 			f.stream = append(f.stream, streamEv{T: h.Now(), Kind: "new", Name: v.ProxyName, Meta: v.Metas["m"], N: n})
 			pol := "ok"
 			if l := f.policy[v.ProxyName]; n-1 < len(l) {
@@ -146,6 +170,12 @@ func (f *fakeCtl) session(s *h.FakeSession) {
 			}
 		case *msg.CloseProxy:
 			f.mu.Lock()
+			if f.compact != nil {
+				f.compact[v.ProxyName] = append(f.compact[v.ProxyName], 'C')
+				f.compactN++
+				f.mu.Unlock()
+				continue
+			}
 			f.stream = append(f.stream, streamEv{T: h.Now(), Kind: "close", Name: v.ProxyName})
 			f.mu.Unlock()
 			run.Count("scripted_CloseProxy_seen", 1)
@@ -226,7 +256,7 @@ func (f *fakeCtl) onWorkConn(_ *h.FakeServer, conn net.Conn, _ *msg.NewWorkConn)
 
 // ---------------------------------------------------------------------------------------------
 
-var scriptedSlots = newSlotPool(16, 29700, 2)
+var scriptedSlots = newSlotPool(32, 29700, 2)
 
 type sEnv struct {
 	c       *h.Case
@@ -312,7 +342,7 @@ func scriptedCase(c *h.Case) {
 	pfx := fmt.Sprintf("c%d.", c.Idx)
 	defer forgetPhases(pfx)
 	f := &fakeCtl{policy: map[string][]string{}, errSent: map[string][]int64{}, okSent: map[string][]int64{}}
-	templates := []string{"start-error", "missing-reply", "removed-while-outstanding", "changed-while-outstanding", "health-gated-work-conn", "unchanged-reload", "reload-during-login", "reload-during-login"}
+	templates := []string{"start-error", "missing-reply", "removed-while-outstanding", "changed-while-outstanding", "health-gated-work-conn", "unchanged-reload", "reload-during-login", "reload-during-login", "start-error-then-health-flap"}
 	tpl := templates[rng.Intn(len(templates))]
 	if c.Idx-baseScripted < len(templates) {
 		tpl = templates[c.Idx-baseScripted] // every template at least once in every run
@@ -331,6 +361,9 @@ func scriptedCase(c *h.Case) {
 
 	// template parameters and reply policies must exist before the client starts
 	k := 1 + rng.Intn(3)
+	if !run.Thorough() && k == 3 {
+		k = 2 // the back-off is 5 s: three errors in a row are left to the thorough tier
+	}
 	lateKind := rng.Intn(3)
 	switch tpl {
 	case "start-error":
@@ -358,6 +391,17 @@ func scriptedCase(c *h.Case) {
 			f.policy[pfx+"hc"] = []string{"hold", "hold", "hold", "hold", "hold", "hold"}
 		}
 		c.Data["hc_maxFailed"], c.Data["hc_hold_first_reply"] = e.hcMax, e.hcHold
+	case "start-error-then-health-flap":
+		e.withHC = true
+		e.hcMax = 1 + rng.Intn(2)
+		e.hb, err = newHback(fmt.Sprintf("s%d", c.Idx), time.Second)
+		if err != nil {
+			run.Inconclusive("scripted: health backend did not start")
+			return
+		}
+		defer e.hb.Close() // healthy from the start
+		f.policy[pfx+"hc"] = []string{"err"}
+		c.Data["hc_maxFailed"] = e.hcMax
 	}
 
 	f.fs, err = h.StartFakeServer(h.FakeServerOpts{Port: e.port, Token: token, TCPMux: true, OnSession: f.session, OnWorkConn: f.onWorkConn,
@@ -411,6 +455,9 @@ func scriptedCase(c *h.Case) {
 		okRun = tplUnchanged(e, rng.Intn(3))
 	case "reload-during-login":
 		okRun = tplReloadDuringLogin(e)
+	case "start-error-then-health-flap":
+		okRun = tplStartErrorHealthFlap(e)
+		sigExtra = fmt.Sprint(e.hcMax)
 	}
 	if !okRun {
 		return
@@ -429,6 +476,30 @@ func scriptedCase(c *h.Case) {
 			return
 		}
 		run.Count("work_connections_bridged", 1)
+	}
+	// ledger of the message streams at quiescence, in every template: the last message of a name is a
+	// NewProxy iff the final configuration contains the name (with that content), else a CloseProxy or nothing
+	time.Sleep(3 * tCheck)
+	final := map[string]bool{}
+	for _, n := range e.names {
+		final[n] = true
+	}
+	lastOf := map[string]streamEv{}
+	for _, ev := range f.snapshot() {
+		lastOf[ev.Name] = ev
+	}
+	for n, ev := range lastOf {
+		if n == pfx+"hc" {
+			continue // follows its health check: judged inside the template
+		}
+		if final[n] && (ev.Kind != "new" || ev.Meta != e.metas[n]) {
+			e.fail("final-stream-ledger-configured-entry-not-registered", "%s is configured with metadatas %q; the last message for it is %s (metadatas %q), stream %q", n, e.metas[n], ev.Kind, ev.Meta, f.streamOf(n))
+			return
+		}
+		if !final[n] && ev.Kind == "new" {
+			e.fail("registration-sent-after-stop", "%s is not in the final configuration, but the last message the server got for it is a NewProxy (stream %q): the server keeps a proxy the client no longer tracks", n, f.streamOf(n))
+			return
+		}
 	}
 	run.Count("scripted_cases", 1)
 	run.Distinct("scripted|" + tpl + "|" + sigExtra + "|" + fmt.Sprint(c.Idx%7))
@@ -865,5 +936,71 @@ func tplReloadDuringLogin(e *sEnv) bool {
 		}
 		run.Count("reloads_during_login", 1)
 	}
+	return true
+}
+
+// a health-checked proxy whose registration the server refuses, and whose backend then fails and recovers
+// inside the back-off interval: the recovery must not shorten the back-off, the refused proxy has nothing
+// to close, and "start error" never turns into "check failed"
+func tplStartErrorHealthFlap(e *sEnv) bool {
+	f := e.f
+	n := e.pfx + "hc"
+	rng := e.c.R.RandFor("hcflap", e.c.Idx)
+	if !h.Eventually(gateGrace, func() bool { return len(f.arrivals(n)) >= 1 }) {
+		e.fail("not-registered-after-successful-probe", "%s: health check succeeds for %v, no NewProxy; status %q", n, gateGrace, e.phase(n))
+		return false
+	}
+	if !e.waitPhase(n, "start error", 10*time.Second) {
+		e.fail("start-error-not-reported", "%s: the server answered its registration with an error, status %q", n, e.phase(n))
+		return false
+	}
+	f.mu.Lock()
+	tErr := f.errSent[n][0]
+	f.mu.Unlock()
+	// the flap: maxFailed failed probes, then success again — about maxFailed+1 seconds, the back-off is 5 s
+	var s string
+	for i := 0; i < e.hcMax; i++ {
+		s += string("NR"[rng.Intn(2)])
+	}
+	before := e.hb.nProbes()
+	e.hb.extend(s+"S", 'S', rng)
+	if !h.Eventually(gateGrace, func() bool { return e.hb.nProbes() >= before+len(s)+1 }) {
+		run.Inconclusive("scripted: probes stalled")
+		return false
+	}
+	probes, _, _ := e.hb.snapshot()
+	flapEnd := probes[len(probes)-1].End
+	inside := time.Duration(flapEnd-tErr) < tStartErr-500*time.Millisecond
+	if inside {
+		run.Count("health_flaps_inside_back_off", 1)
+	} else {
+		run.Count("health_flap_finished_too_late", 1)
+	}
+	// the retry: not before the back-off interval has passed since the error reply, and not abandoned
+	if !h.Eventually(retryGrace, func() bool { return len(f.arrivals(n)) >= 2 }) {
+		e.fail("start-error-not-retried", "%s: %v after the error reply no further NewProxy arrived; status %q", n, retryGrace, e.phase(n))
+		return false
+	}
+	ar := f.arrivals(n)
+	if gap := time.Duration(ar[1].T - tErr); gap < tStartErr {
+		e.fail("start-error-retried-before-backoff-after-health-flap", "%s (maxFailed %d): the server refused the registration; the backend then failed %d probe(s) and recovered %v after the error reply; the next NewProxy arrived %v after the error reply, the back-off interval is %v. Transitions: %+v", n, e.hcMax, e.hcMax, time.Duration(flapEnd-tErr).Round(time.Millisecond), gap.Round(time.Millisecond), tStartErr, phaseHistory(n))
+		return false
+	}
+	for _, p := range phaseHistory(n) {
+		if p.From == "start error" && p.To == "check failed" {
+			e.fail("illegal-transition-start-error-to-check-failed", "%s: status went from start error to check failed (the proxy was not registered); transitions %+v", n, phaseHistory(n))
+			return false
+		}
+	}
+	// between the refused registration and the retry the server holds nothing for the name: nothing to close
+	if st := f.streamOf(n); st != "NN" {
+		e.fail("closeproxy-for-unregistered-proxy", "%s: the server refused the registration, so it holds nothing for the name; message stream up to the retry is %q (N = NewProxy, C = CloseProxy), want NN", n, st)
+		return false
+	}
+	if !e.waitPhase(n, "running", 10*time.Second) {
+		e.fail("not-running-after-successful-reply", "%s: status %q", n, e.phase(n))
+		return false
+	}
+	run.Count("start_error_retries_timed", 1)
 	return true
 }
